@@ -582,7 +582,9 @@ def _state_N(res, co, ci, z, T, count=True):
         v, _, anyw = _call(res, call)
         m = J.value(mode, v, V, None, 0, vl + lab, skip_value=True)
         if m is not None:
-            if abs(m - rf) > (2 * tol) * abs(rf) + (0 if rf else 1e-18):
+            # (absolute slack: a unit conversion may leave the concentration ratio one ulp from its exact value, which
+            # moves ln(ratio) by 2e-16 whatever its size, e.g. from exactly 0 when c_out == c_in)
+            if abs(m - rf) > (2 * tol) * abs(rf) + 4e-16 * abs(R14 * T / (z * F14)):
                 J.fail(mode, what, "nernst_potential %s%s = %r V, the Nernst equation gives %r V" % (vl, lab, m, rf), m, rf)
             else:
                 res.outcomes["nernst_potential|%s|%s-ok" % (mode, what)] += 1
